@@ -79,6 +79,7 @@ class Sim:
         self.vad_discarded = set()
         self.vad_refined = set()
         self.bad_faulted = []
+        self.cur_regs = None
 
     # -------------------------------------------------------------------------------------
     def violate(self, prop, cls, detail, **extra):
@@ -223,6 +224,9 @@ class Sim:
         if kind == "check_dominates":
             return BAND_PDOM
         if self.faulted.get((kind, i, j)):
+            regs = self.cur_regs
+            if regs is not None and i in regs and j in regs:
+                return O.fallback_band(regs[i], regs[j])
             return BAND_FALLBACK
         if kind == "is_dominated" and self.conf_kind == "hyperrectangle":
             return BAND_FLOAT
@@ -317,9 +321,9 @@ class Sim:
         except ValueError:
             return  # slack shape the oracle does not define (the predicate itself rejected it)
         if kind == "is_dominated":
-            band = BAND_FALLBACK if faulted else (BAND_FLOAT if rect else BAND_NOMINAL)
+            band = O.fallback_band(s1, s2) if faulted else (BAND_FLOAT if rect else BAND_NOMINAL)
         elif kind == "is_covered":
-            band = BAND_FALLBACK if faulted else BAND_NOMINAL
+            band = O.fallback_band(s1, s2) if faulted else BAND_NOMINAL
         else:
             band = BAND_PDOM
         d = O.decide(jd, *band)
@@ -460,6 +464,7 @@ class Sim:
 
     # -------------------------------------------------------------------------------------
     def _pc(self, regs):
+        self.cur_regs = regs
         return R.PredCache(self.W, regs, self.band_fn, oracle=self.oracle)
 
     def _tally(self, prop, pc, before):
